@@ -305,6 +305,52 @@ def run(ctx):
        f"{nqb} queries", nqb)
     tq += eng.queries
 
+    # DiscreteUniform on the REAL stream wrapper: the uniforms giving the value k form the interval [(k-lo)/n, (k-lo+1)/n) of
+    # length 1/n = probability(k)  (the draw goes through MersenneTwister.next_int, summarised from its live source)
+    from pydsol.core.streams import MersenneTwister
+
+    class _Rnd:
+        def random(self):
+            pass
+
+    def hook_rnd(eng, path, obj, args, kwargs):
+        cnt["n"] += 1
+        u = z3.Real(f"ur{cnt['n']}")
+        path.pc.append(z3.And(u >= 0, u < 1))
+        path.log.append(("u", u))
+        return [(path, ("return", u))]
+    eng = A.Engine(unroll=2, hooks=dict(hooks, **{"_Rnd.random": hook_rnd}), solver_timeout_ms=1500)
+    eng.prove_timeout_ms = 20000
+    dlo, dhi = z3.Ints("dlo dhi")
+    p0 = A.Path()
+    rnd = A.new_obj(p0, _Rnd, {})
+    mt = A.new_obj(p0, MersenneTwister, {"_random": rnd, "_seed": 1, "_original_seed": 1})
+    p0.pc.append(dlo < dhi)
+    okd, unk, nqd = True, 0, 0
+    for q, dobj in [(qq, v) for qq, v in eng.apply(p0, D.DistDiscreteUniform, [mt, dlo, dhi], {}, None) if not A._is_raise(v)]:
+        q.log = []
+        for q2, o in eng.call_method(q, dobj, "draw", [], {}):
+            if o[0] != "return":
+                okd = False
+                continue
+            u = [t for k, t in q2.log if k == "u"][-1]
+            v = A.to_z3(o[1])
+            nn = z3.ToReal(dhi - dlo + 1)
+            r, _ = A.prove(eng, q2, z3.And(v >= dlo, v <= dhi, z3.ToReal(v - dlo) <= nn * u, nn * u < z3.ToReal(v - dlo + 1)))
+            nqd += 1
+            if r == "sat":
+                okd = False
+            elif r != "unsat":
+                unk += 1
+    tq += eng.queries
+    nm = "DistDiscreteUniform on the real stream wrapper: draw() == k exactly for u in [(k-lo)/n, (k-lo+1)/n): every value of the support has probability 1/n = probability(k), for ALL lo < hi"
+    if okd and not unk:
+        ob(nm, "pass", f"{nqd} queries", nqd)
+    elif not okd:
+        ctx.report_counterexample(nm, "astsym-z3", "c15", "r_discrete_uniform", [-5, -1], {}, {})
+    else:
+        ob(nm, "inconclusive", f"{unk} unknown", nqd)
+
     # ------------------------------------------------------------------ normal family: cdf / inverse wiring
     mu, sg, y = z3.Reals("mu sigma y")
     for cname, pre_y in (("DistNormal", z3.And(y > 0, y < 1)), ("DistLogNormal", z3.And(y > 0, y < 1))):
